@@ -124,6 +124,7 @@ def finalize(mod, tier, seed, results, wall, extra_acc=None, t_start=None):
         exhaustive=False,
         technique="symbolic execution of the real skchange functions (symnp) + z3 "
                   "per-path validity queries; counterexamples replayed natively",
+        solver_cross_check={k: v for k, v in sorted(total.c.items()) if k.startswith("xcheck")},
         known_findings_reported=[k for k, _ in known_hits],
         unreproduced_counterexamples=len(unreproduced),
     )
